@@ -224,3 +224,29 @@ def budgeted(facts, extra_modules=()):
                       on_reward_phase=helper._reward_phase_budget) as shim:
         shim.helper = helper
         yield shim
+
+
+def reward_phase_budget_generic(state_list):
+    """on_reward_phase callback that needs no GameFacts: bound from the exact T of the iterated game."""
+    g = dict(rewards=[s.reward for s in state_list], players=[s.player for s in state_list],
+             transition_list=[list(s.next_states) for s in state_list], final_states=[])
+    R = max([float(s.reward) for s in state_list] + [0.0])
+    try:
+        T = exact.max_expected_steps(g)
+    except OracleError:
+        return sweep_bound(T_MAX, R)
+    if T > T_MAX_COND:
+        raise SkipSolve(f"conditioned game has T={float(T):.0f} > {T_MAX_COND}")
+    return sweep_bound(T, R)
+
+
+@contextlib.contextmanager
+def budgeted_many(facts_list, extra_modules=()):
+    """Like budgeted() for a batch over several games: reach loops get the largest of the games' bounds."""
+    from .budget import sweep_budget
+    from .load import repo
+    n_sweeps = max([f.budget for f in facts_list] + [sweep_bound(1, 1)])
+    n_states = max([f.n for f in facts_list] + [1])
+    with sweep_budget(repo().tad, n_sweeps, n_states, extra_modules=extra_modules,
+                      on_reward_phase=reward_phase_budget_generic) as shim:
+        yield shim
